@@ -328,9 +328,25 @@ private:
             CountType                       listElement,
             XalanDOMString&                 theResult) const;
 
+    /*
+     * Count the nodes that go before the given node, through the
+     * counters table of the execution context unless the patterns
+     * refer to variables.
+     */
+    CountType
+    countNode(
+            StylesheetExecutionContext&     executionContext,
+            CountersTable&                  ctable,
+            XalanNode*                      node) const;
+
     const XPath*    m_countMatchPattern;
     const XPath*    m_fromMatchPattern;
     const XPath*    m_valueExpr;
+
+    // False if the count or from pattern contains a variable reference:
+    // what such a pattern matches can change from one instantiation to
+    // the next, so counts remembered in the counters table cannot be used.
+    bool            m_cacheCounts;
 
     CountType       m_level; // = Constants.NUMBERLEVEL_SINGLE;
 
